@@ -34,3 +34,23 @@ pub proof fn lemma_udp_sequence(ps: Seq<Seq<u8>>)
         assert(seq![ps[0]] + tl =~= ps);
     }
 }
+pub proof fn lemma_udp_enc_all_push(ps: Seq<Seq<u8>>, d: Seq<u8>)
+    ensures udp_enc_all(ps.push(d)) == udp_enc_all(ps) + udp_enc(d)
+    decreases ps.len()
+{
+    reveal_with_fuel(udp_enc_all, 3);
+    if ps.len() == 0 {
+        assert(ps.push(d)[0] == d);
+        assert(udp_enc_all(Seq::<Seq<u8>>::empty()) =~= Seq::<u8>::empty());
+        assert(ps.push(d).drop_first() =~= Seq::<Seq<u8>>::empty());
+        assert(udp_enc_all(ps.push(d)) =~= udp_enc(d) + Seq::<u8>::empty());
+        assert(udp_enc_all(ps) + udp_enc(d) =~= udp_enc(d));
+    } else {
+        lemma_udp_enc_all_push(ps.drop_first(), d);
+        assert(ps.push(d).drop_first() =~= ps.drop_first().push(d));
+        assert(ps.push(d)[0] == ps[0]);
+        assert(udp_enc_all(ps.push(d)) == udp_enc(ps[0]) + udp_enc_all(ps.drop_first().push(d)));
+        assert(udp_enc_all(ps) == udp_enc(ps[0]) + udp_enc_all(ps.drop_first()));
+        assert(udp_enc(ps[0]) + (udp_enc_all(ps.drop_first()) + udp_enc(d)) =~= (udp_enc(ps[0]) + udp_enc_all(ps.drop_first())) + udp_enc(d));
+    }
+}
